@@ -120,6 +120,8 @@ type Gen struct {
 	inlined  map[string]bool
 	cellCtr  int
 	globals  map[*ssa.Global]*Cell
+	cellGlobal map[*Cell]*ssa.Global
+	escaped  map[*Cell][2]string // locals moved to the pointer heap: heap name, location
 	entry    *State
 	concrete bool
 	uses     map[string]bool
@@ -132,6 +134,7 @@ type Gen struct {
 	worldSeen map[string]bool
 	topFrame *Frame
 	resultMode bool // values being introduced are results of a callee (may be freshly allocated)
+	allocBound string // when non-empty: slices/maps of the values being introduced were allocated at or before this counter value
 	hashState map[string]*Cell // sha256 objects (by their interface term) -> cell holding the bytes written so far
 }
 
@@ -356,8 +359,17 @@ func (g *Gen) heapSort(name string) string {
 	if strings.HasPrefix(name, "HA_") {
 		// array heap of a simple element sort named in a contract before any value of that type was seen
 		el := strings.TrimPrefix(name, "HA_")
-		if el == "Str" || el == "Int" || el == "Bool" || el == "Iface" || g.sorts.structs[el] != nil {
+		if el == "Str" || el == "Int" || el == "Bool" || el == "Iface" || g.sorts.structs[el] != nil || (strings.HasPrefix(el, "T_") && g.sorts.ensureByName(el, g.w.lookupType)) {
 			s := "(Array Int (Array Int " + el + "))"
+			g.sorts.heapUsed[name] = s
+			return s
+		}
+	}
+	if strings.HasPrefix(name, "HP_") {
+		// pointer heap of a struct sort named in a contract before any pointer of that type was seen
+		el := strings.TrimPrefix(name, "HP_")
+		if g.sorts.structs[el] != nil || g.sorts.ensureByName(el, g.w.lookupType) {
+			s := "(Array Int " + el + ")"
 			g.sorts.heapUsed[name] = s
 			return s
 		}
@@ -504,28 +516,37 @@ func (g *Gen) typeInv(term string, t types.Type, depth int) []string {
 			fmt.Sprintf("(<= 0 (len_%s %s))", s, term),
 			fmt.Sprintf("(<= (len_%s %s) (cap_%s %s))", s, term, s, term),
 		}
-		if !g.resultMode {
-			out = append(out, fmt.Sprintf("(<= (arr_%s %s) 0)", s, term)) // pre-existing storage, never a fresh allocation
+		if !g.resultMode && g.allocBound != "" {
+			// storage that existed when the value was introduced: function entry (bound 0) or the loop head
+			out = append(out, fmt.Sprintf("(<= (arr_%s %s) %s)", s, term, g.allocBound))
 		}
 		return out
 	case *types.Map:
-		if g.resultMode {
+		if g.resultMode || g.allocBound == "" {
 			return nil
 		}
-		return []string{fmt.Sprintf("(<= %s 0)", term)}
+		return []string{fmt.Sprintf("(<= %s %s)", term, g.allocBound)}
 	}
 	return nil
 }
 
 // load reads the value at an address.
 func (g *Gen) load(st *State, a *Addr, t types.Type) Val {
+	a = g.redirectEscaped(a)
 	var root Val
 	switch {
 	case a.Cell != nil:
 		v, ok := st.cells[a.Cell]
 		if !ok {
 			// global or late-bound cell: unconstrained initial content shared by all paths
+			g.allocBound = "0"
 			v = g.freshVal("cell_"+a.Cell.name, a.Cell.goT, g.entry)
+			g.allocBound = ""
+			if gl := g.cellGlobal[a.Cell]; gl != nil && v.Sort == "Err" && globalErrInitialised(gl) {
+				// A-GLOBALS: a package-level error variable initialised with errors.New / fmt.Errorf / Register keeps that (non-nil) value
+				g.assume(fmt.Sprintf("(not (= %s Err_nil))", v.Term))
+				g.assumes["A-GLOBALS: package-level error variables keep the non-nil value their initialiser gives them"] = true
+			}
 			g.entry.cells[a.Cell] = v
 			st.cells[a.Cell] = v
 		}
@@ -584,7 +605,19 @@ func (g *Gen) updatePath(rootTerm string, path []pathStep, newTerm string) strin
 	return "(" + strings.Join(parts, " ") + ")"
 }
 
+// redirectEscaped: a local whose address was stored in the heap lives in the pointer heap from then on; accesses
+// through the (static) local pointer go to the same object.
+func (g *Gen) redirectEscaped(a *Addr) *Addr {
+	if a != nil && a.Cell != nil {
+		if e, ok := g.escaped[a.Cell]; ok {
+			return &Addr{PHeap: e[0], PLoc: e[1], Path: a.Path}
+		}
+	}
+	return a
+}
+
 func (g *Gen) store(st *State, a *Addr, v Val) {
+	a = g.redirectEscaped(a)
 	switch {
 	case a.Cell != nil:
 		if len(a.Path) == 0 {
@@ -675,6 +708,10 @@ func (f *Frame) val(v ssa.Value, st *State) Val {
 			el := x.Type().(*types.Pointer).Elem()
 			c = g.newCell("glob_"+x.Name(), g.sorts.sortOf(el), el)
 			g.globals[x] = c
+			if g.cellGlobal == nil {
+				g.cellGlobal = map[*Cell]*ssa.Global{}
+			}
+			g.cellGlobal[c] = x
 		}
 		return Val{Ptr: &Addr{Cell: c}, GoT: x.Type()}
 	case *ssa.Function:
@@ -1333,4 +1370,36 @@ func (f *Frame) mergeReturns() ([]Val, *State, string) {
 		results[k] = Val{Sort: srt, Term: g.def(fmt.Sprintf("%sresult%d", f.prefix, k), srt, iteChain(es, terms)), GoT: f.fn.Signature.Results().At(k).Type()}
 	}
 	return results, out, reach
+}
+
+// globalErrInitialised: the package initialiser stores the result of an error constructor into the global.
+func globalErrInitialised(gl *ssa.Global) bool {
+	if gl.Pkg == nil {
+		return false
+	}
+	init := gl.Pkg.Func("init")
+	if init == nil {
+		return false
+	}
+	for _, b := range init.Blocks {
+		for _, ins := range b.Instrs {
+			st, ok := ins.(*ssa.Store)
+			if !ok || st.Addr != ssa.Value(gl) {
+				continue
+			}
+			v := st.Val
+			if mi, ok := v.(*ssa.MakeInterface); ok {
+				v = mi.X
+			}
+			if c, ok := v.(*ssa.Call); ok {
+				if callee := c.Common().StaticCallee(); callee != nil {
+					switch callee.String() {
+					case "fmt.Errorf", "errors.New", "github.com/cosmos/cosmos-sdk/types/errors.Register", "cosmossdk.io/errors.Register":
+						return true
+					}
+				}
+			}
+		}
+	}
+	return false
 }
